@@ -23,8 +23,8 @@ import (
 )
 
 func init() {
-	register("C05", "translation_validation", LoadOpts{NeedGen: true}, checkC05)
-	register("C03", "translation_validation", LoadOpts{NeedGen: true}, checkC03)
+	register("C05", "translation_validation", LoadOpts{NeedGen: true, TC: true, SSA: true}, checkC05)
+	register("C03", "translation_validation", LoadOpts{NeedGen: true, TC: true, SSA: true}, checkC03)
 	register("C14", "translation_validation", LoadOpts{NeedGen: true}, checkC14)
 }
 
@@ -384,6 +384,7 @@ func checkC05(c *Ctx) {
 	rules := map[string]bool{"TV-compile": true, "TV-determ": true, "TV-fields": true, "TV-shred": true, "TV-asm": true}
 	programs, cases, typeErr, genFail := emitTV(r, res, rules, nil)
 	checkGenMapRanges(c)
+	runTVDriver(c, "TV-driver")
 	r.Explanation = "Translation validation of parquetgen's output, program by program over the bounded struct grammar (" + desc + "): each struct is fed to the working tree's parquetgen; the generated file must parse and type-check against today's runtime (TV-compile), be reproduced byte for byte by a second run (TV-determ), list the struct's columns one to one in Fields() (TV-fields); every column's shredder is abstractly interpreted into a decision tree over nil/empty tests and compared with the canonical Dremel shredder computed from the struct's go/types description (TV-shred); every column's assembler is checked case by case (def, rep) against the required effect — no clobber of nodes materialised earlier, no dangling access, exact creation, right indices, coverage and value counting (TV-asm). Each obligation covers ALL record values of its shape; the quantifier over shapes is discharged by enumeration."
 	r.Extra["programs"] = programs
 	r.Extra["disagreements_checked"] = cases
@@ -394,7 +395,7 @@ func checkC05(c *Ctx) {
 	r.Extra["grammar"] = desc
 	r.count("TV/programs", programs)
 	r.floor("TV/programs", 400, "quick tier corpus size")
-	r.assume("template-fixed drivers: indices.rep, Scan runs columns in Fields() order over the whole record")
+	r.assume("TV-asm relies on the drivers checked by TV-driver on the template-coverage packages: indices.rep, per-column consumption in Scan, column order in ParquetReader.Scan")
 	r.assume("shapes outside the grammar (depth > 3, > 2 children per group, leaf types other than int32 below the root) are not covered")
 }
 
@@ -417,6 +418,8 @@ func checkC03(c *Ctx) {
 	r.Extra["shapes_with_type_errors_partly_skipped"] = typeErr
 	r.count("TV/programs", programs)
 	r.floor("TV/programs", 400, "quick tier corpus size")
+	// the levels of a row group are those of its own records only if Write re-initialises the per-batch column state
+	runWHReset(c, "WH-reset")
 	r.assume("RepetitionTypes.MaxDef/MaxRep and bits.Len arithmetic at run time, and the RLE bytes (C07), are not decided here")
 }
 
